@@ -1,6 +1,7 @@
 package pgsim
 
 import (
+	"strconv"
 	"context"
 	"database/sql"
 	"database/sql/driver"
@@ -383,6 +384,9 @@ func (c *conn) runStatement(ctx context.Context, st any, q string) (*relation, e
 			}
 			v := int64(0)
 			db.sequences[key] = &v
+			if n, err := strconv.ParseInt(m.Args["cache"], 10, 64); err == nil && n > 1 {
+				db.seqCache[key] = n
+			}
 			return nil, nil
 		}
 	}
